@@ -1,10 +1,22 @@
 (* tree-level tie of the optimizer model: raw tree dump in, optimised tree dump out *)
 From Coq Require Import String List.
-From ChaiV Require Import StrUtil Ast Eval EvalRun Optimizer.
+From ChaiV Require Import StrUtil Ast Eval EvalRun Optimizer OptConst.
 From ChaiV.Gen Require Import G_OptOrder.
 Local Open Scope string_scope.
+(* "<tree>" -> optimised tree;  "CONSTS <tree>" -> whether every Constant node of the tree is const *)
 Definition run_line (line : string) : string :=
+  if has_prefix "CONSTS " line then
+    match read_ast (drop_prefix "CONSTS " line) with
+    | Some a => if consts_const a then "ALLCONST" else "MUTABLE-CONSTANT"
+    | None => "UNREADABLE"
+    end
+  else if has_prefix "NOCONVFOLD " line then
+    match read_ast (drop_prefix "NOCONVFOLD " line) with
+    | Some a => show_ast (optimize_tree mech_numops false optimizer_default a)
+    | None => "UNREADABLE"
+    end
+  else
   match read_ast line with
-  | Some a => show_ast (optimize_tree mech_numops optimizer_default a)
+  | Some a => show_ast (optimize_tree mech_numops true optimizer_default a)
   | None => "UNREADABLE"
   end.
